@@ -42,6 +42,7 @@ func verifC15_echo() {
 		ping()
 	}
 	t := vNewTransport(vEncodeFrames(in))
+	t.step = vParam("step", 0)
 	c := vNewConn(t, client, nil, 16, 256)
 	if len(pings) > 0 {
 		vReach("C15.echo.pinged")
